@@ -386,7 +386,7 @@ def draw_config(ch: Choices, doc_len: int = 1, middlewares: bool = False, handle
         # how the user hands the middlewares over: any iterable is allowed, also a one-shot one
         cfg['mw_iterable'] = ch.choice(['list', 'tuple', 'generator', 'iterator'], 'srv.mw.iterable')
     if handlers:
-        shape = ch.choice(['none', 'generic', 'per_code', 'both', 'several', 'replace'], 'srv.eh.shape')
+        shape = ch.choice(['none', 'generic', 'per_code', 'both', 'several', 'replace', 'shared'], 'srv.eh.shape')
         table: Dict[str, List[Tuple[str, str]]] = {}
         n = 0
 
@@ -404,6 +404,12 @@ def draw_config(ch: Choices, doc_len: int = 1, middlewares: bool = False, handle
             table['none'] = [h(ch.choice(EH_KINDS, 'srv.eh.kind')) for _ in range(2)]
             c = ch.choice(codes, 'srv.eh.code')
             table[str(c)] = [h(ch.choice(EH_KINDS, 'srv.eh.kind')) for _ in range(2)]
+        if shape == 'shared':
+            # one handler object registered in several slots that apply to the same failure: it runs once per slot
+            one = h(ch.choice(['annotate', 'identity'], 'srv.eh.kind'))
+            c = ch.choice(codes, 'srv.eh.code')
+            table['none'] = [one, one] if ch.flag(1, 2, 'srv.eh.twice_in_list') else [one]
+            table[str(c)] = [one]
         if shape == 'replace':
             table['none'] = [h('replace')]
             # handlers registered for the replaced code must NOT run; those for the raised code must
@@ -430,16 +436,21 @@ class ServerUnderTest:
         plain = list(cfg.get('mw_plain') or []) + [False] * len(cfg['middlewares'])
         mws = [make_middleware(w, node, i, k, is_async, plain[i]) for i, k in enumerate(cfg['middlewares'])]
         table: Dict[Any, List[Any]] = {}
+        made: Dict[Tuple[str, str], Any] = {}    # the same (hid, kind) listed twice is the same callable object
         for key, hs in cfg['handlers'].items():
-            table[None if key == 'none' else int(key)] = [make_error_handler(w, node, hid, kind, is_async)
-                                                           for hid, kind in hs]
+            table[None if key == 'none' else int(key)] = [
+                made.setdefault((hid, kind), make_error_handler(w, node, hid, kind, is_async)) for hid, kind in hs]
         how = cfg.get('mw_iterable', 'list')
         mws_arg: Any = mws if how == 'list' else tuple(mws) if how == 'tuple' else \
             (m for m in mws) if how == 'generator' else iter(mws)
         kwargs: Dict[str, Any] = dict(middlewares=mws_arg, error_handlers=table, max_batch_size=cfg['max_batch_size'])
         if is_async and 'concurrent_batch' in cfg:
             kwargs['concurrent_batch'] = cfg['concurrent_batch']
-        if cfg.get('hooks') == 'own_encoder':
+        if cfg.get('hooks') == 'single_use_encoder':
+            from .hooks import SingleUseEncoder
+            kwargs['json_encoder'] = SingleUseEncoder
+            w.probe('server.single_use_encoder')
+        elif cfg.get('hooks') == 'own_encoder':
             from .hooks import OwnRenderingEncoder
             kwargs['json_encoder'] = OwnRenderingEncoder
             w.probe('server.own_encoder')
